@@ -288,6 +288,8 @@ class CrawlRun(object):
         self.nreq += 1
         if self.nreq > self.max_requests:
             raise Runaway('requests')
+        if any(l.lower().startswith(b'authorization:') for l in lines[1:]):
+            self.req_auth = getattr(self, 'req_auth', set()) | {self.nreq}
         for l in lines[1:]:
             mr = re.match(rb'(?i)range:\s*bytes=(\d+)-\s*$', l)
             if mr:
@@ -336,7 +338,16 @@ class CrawlRun(object):
         key = (host, port, path)
         hit = self.site.hits.get(key, 0)
         self.site.hits[key] = hit + 1
-        cls, data = self.site.respond(host, port, path, hit)
+        if self.site.desc.get('auth_all') and n not in getattr(self, 'req_auth', ()):
+            # a site that is wholly behind HTTP authentication - its robots.txt included
+            key_ = None
+            cls, data = ('robots401' if kind == 'robots' else 'unauthorized'), _http(
+                401, 'Unauthorized', b'', 'text/plain', [('WWW-Authenticate', 'Basic realm="x"')])
+        else:
+            key_ = key
+            cls, data = self.site.respond(host, port, path, hit)
+        if key_ is None:
+            self.site.hits[key] = hit       # (an unauthenticated attempt is not a hit of the resource)
         self.answer_log.append(n)
         start = getattr(self, 'req_range', {}).get(n)
         ranged = (data is not None and data is not ENDLESS_INTERIM and start is not None and self.site.desc.get('honour_range')
